@@ -37,13 +37,15 @@ def run(pid, tier, replay=None):
         mc_runs=[("d", "AppEngineMC.tla", MC % (5 if th else 4), V.NCPU, 3000)],
         gens=[("EngGen.tla", GEN % (60 if th else 40), "sched", 1500 if th else 150, 60 if th else 40)],
         drivers=[("TestEngSched", {"VERIF_SCHED": "@sched"}, ["eng_sched.ndjson"]),
-                 ("TestEngGen", {"VERIF_N": 3000 if th else 300, "VERIF_LEN": 60 if th else 40}, ["eng_gen.ndjson"])],
+                 ("TestEngGen", {"VERIF_N": 3000 if th else 300, "VERIF_LEN": 60 if th else 40}, ["eng_gen.ndjson"]),
+                 ("TestEngHammer", {"VERIF_N": 24 if th else 4, "VERIF_LEN": 600 if th else 300}, ["eng_hammer.ndjson"], {"race": True})],
         replay_driver=("TestEngSched", "VERIF_REPLAY", "eng_sched.ndjson"),
         trace_module="EngTrace.tla", trace_head=HEAD,
-        props=["P_C20", "T_C20known", "T_C20rid", "T_nopanic"], invs=["ExactlyOnce", "AllResolved"],
+        props=["P_C20", "T_C20known", "T_C20rid", "T_C20hammer", "T_nopanic"], invs=["ExactlyOnce", "AllResolved"],
         nontrivial=nontrivial,
         rule_text="executions of the real basic.Engine on a dummy face (2/3 with the dummy timer, 1/3 with the real basic.Timer inside a synctest bubble); "
                   "schedules from TLC -simulate of EngGen and a seeded generator over nested names /a /a/b /a/b/c /d with duplicates, CanBePrefix, implicit digests, "
-                  "Data/Nack arrivals, clock advances, attach/detach histories, incoming Interests and delayed replies; non-trivial = some callback fired",
+                  "Data/Nack arrivals, clock advances, attach/detach histories, incoming Interests and delayed replies, Interests expressed from inside callbacks; "
+                  "a free-running hammer (8 goroutines on one engine, real timer, race detector) judged at quiescence; non-trivial = some callback fired",
         assumptions=["TLC, JVM, Go runtime and testing/synctest trusted", "time in 100 ms ticks; the engine's 10 ms timeout margin is below one tick",
                      "the dummy face delivers packets synchronously on the harness goroutine"])
